@@ -13,7 +13,6 @@ package main
 
 import (
 	"encoding/json"
-	"fmt"
 	"os"
 
 	"verif/harness/internal/h"
@@ -49,13 +48,10 @@ func main() {
 		r.Finish()
 		return
 	}
-	tmp, err := os.MkdirTemp("", "verif-c16-*")
-	if err == nil {
-		defer os.RemoveAll(tmp)
-	}
+	// everything lives in in-memory back ends (one fresh world per scenario): no scratch data on the OS file system
 	corpus(r)
 	sweepSeq(r)
 	otherScenarios(r)
-	r.Note(fmt.Sprintf("failures: %d", 0))
+	r.Note("back end: afero MemMapFs behind strictFs (EISDIR / ENOENT like an OS file system); lock files look one hour old to the fresh clients of sequential scenarios (fabricated clock), real clocks in the gated scenarios")
 	r.Finish()
 }
